@@ -1042,3 +1042,23 @@ func fnShort(fn *ssa.Function) string {
 	}
 	return short(fn.String())
 }
+
+func (a *sliceAtoms) String() string {
+	var parts []string
+	for _, f := range a.fieldNames() {
+		parts = append(parts, "."+f)
+	}
+	var cs []string
+	for c := range a.Calls {
+		cs = append(cs, c+"()")
+	}
+	sort.Strings(cs)
+	parts = append(parts, cs...)
+	for p := range a.Params {
+		parts = append(parts, "param "+p.Name())
+	}
+	for _, k := range a.Consts {
+		parts = append(parts, "const "+k)
+	}
+	return "[" + strings.Join(parts, " ") + "]"
+}
